@@ -54,7 +54,7 @@ Record txrec := Tx {
 
 Record coord := Co {
   pending : list (N * txrec);   (* HashMap<tx, DistributedTransaction> *)
-  locks : list N;               (* lock handles currently held in the lock manager *)
+  locks : list (N * N);         (* (lock handle, owning transaction) currently held in the lock manager *)
   cfg_prepare_timeout : N }.
 Definition co0 : coord := Co [] [] 5000.
 
@@ -63,12 +63,16 @@ Definition all_voted (t : txrec) : bool :=
 Definition all_yes (t : txrec) : bool := forallb (fun sv => is_yes (snd sv)) (votes t).
 Definition yes_handles (t : txrec) : list N :=
   flat_map (fun sv => match snd sv with VYes h => [h] | VNo => [] end) (votes t).
-Definition release (ls : list N) (hs : list N) : list N :=
-  filter (fun l => negb (existsb (N.eqb l) hs)) ls.
+(* release_by_handle for each handle *)
+Definition release (ls : list (N * N)) (hs : list N) : list (N * N) :=
+  filter (fun l => negb (existsb (N.eqb (fst l)) hs)) ls.
+(* ... followed by LockManager::release(tx): everything the transaction still holds *)
+Definition release_tx (ls : list (N * N)) (hs : list N) (tx : N) : list (N * N) :=
+  filter (fun l => negb (N.eqb (snd l) tx)) (release ls hs).
 
 Inductive step_in :=
 | Begin (tx : N) (ps : list N)              (* tx = the id the real call generated (mapped) *)
-| Lock (h : N)                              (* a participant lock taken in the coordinator's lock manager *)
+| Lock (h tx : N)                           (* try_lock(tx, [key_h]) in the coordinator's lock manager -> handle h *)
 | Vote (tx shard : N) (v : vote)
 | Commit (tx : N) (order : list N)          (* order = lock handles in the (HashMap) order they were released *)
 | Abort (tx : N)
@@ -94,7 +98,7 @@ Definition step (now : N) (c : coord) (s : step_in) : coord * list tentry * step
   | Begin tx ps =>
       (Co (aset (pending c) tx (Tx ps PREPARING [] now (cfg_prepare_timeout c))) (locks c) (cfg_prepare_timeout c),
        [TBegin tx ps], [0])
-  | Lock h => (Co (pending c) (h :: locks c) (cfg_prepare_timeout c), [], [0])
+  | Lock h tx => (Co (pending c) ((h, tx) :: locks c) (cfg_prepare_timeout c), [], [0])
   | Vote tx shard v =>
       (* the vote is logged BEFORE the transaction is even looked up *)
       let w := [TVote tx shard v] in
@@ -124,7 +128,7 @@ Definition step (now : N) (c : coord) (s : step_in) : coord * list tentry * step
           if negb (phase t =? PREPARED) then (c, [], [1; 2])
           else if negb (same_set order (yes_handles t)) then (c, [], [9])   (* malformed case *)
           else
-            (Co (adel (pending c) tx) (release (locks c) (yes_handles t)) (cfg_prepare_timeout c),
+            (Co (adel (pending c) tx) (release_tx (locks c) (yes_handles t) tx) (cfg_prepare_timeout c),
              [TPhase tx PREPARED COMMITTING; TComplete tx true]
                ++ map (fun h => TLockRelease tx h) order ++ [TAllReleased tx], [0])
       end
@@ -132,7 +136,7 @@ Definition step (now : N) (c : coord) (s : step_in) : coord * list tentry * step
       match aget (pending c) tx with
       | None => (c, [], [1; 1])
       | Some t =>
-          (Co (adel (pending c) tx) (release (locks c) (yes_handles t)) (cfg_prepare_timeout c),
+          (Co (adel (pending c) tx) (release_tx (locks c) (yes_handles t) tx) (cfg_prepare_timeout c),
            [TPhase tx (phase t) ABORTING; TComplete tx false], [0])
       end
   | CompleteCommit tx =>
@@ -152,7 +156,8 @@ Definition step (now : N) (c : coord) (s : step_in) : coord * list tentry * step
   | Timeouts _ =>
       let out := filter (fun p => timeout (snd p) <? now - started (snd p)) (pending c) in
       let keep := filter (fun p => negb (timeout (snd p) <? now - started (snd p))) (pending c) in
-      (Co keep (release (locks c) (flat_map (fun p => yes_handles (snd p)) out)) (cfg_prepare_timeout c),
+      (Co keep (fold_left (fun ls p => release_tx ls (yes_handles (snd p)) (fst p)) out (locks c))
+           (cfg_prepare_timeout c),
        [], 3 :: sort_N (map fst out))
   end.
 Definition clock_of (now : N) (s : step_in) : N :=
@@ -168,13 +173,18 @@ Record scan := Sc {
   completed : list N }.
 Definition sc0 : scan := Sc [] [] [] [] [] [].
 
-Definition scan_step (s : scan) (e : tentry) : scan :=
+(* [live_rule]: a logged vote is recovered only if the live coordinator accepted it, i.e. the
+   transaction was still collecting votes and the shard had not voted yet (true after the fix;
+   votes are logged BEFORE they are validated, so rejected ones are in the log) *)
+Definition scan_step (live_rule : bool) (s : scan) (e : tentry) : scan :=
   match e with
   | TBegin tx ps =>
       Sc (aset (in_prog s) tx (ps, [], PREPARING)) (done_handles s) (released s) (fully s) (intents s) (completed s)
   | TVote tx sh v =>
       match aget (in_prog s) tx with
       | Some (ps, vs, ph) =>
+          if live_rule && negb ((ph =? PREPARING) && negb (existsb (fun sv => N.eqb (fst sv) sh) vs)) then s
+          else
           Sc (aset (in_prog s) tx (ps, vs ++ [(sh, v)], ph)) (done_handles s) (released s) (fully s) (intents s) (completed s)
       | None => s
       end
@@ -219,8 +229,8 @@ Definition restore_votes (first_wins : bool) (vs : list (N * vote)) : list (N * 
 
 (* recover_from_wal on a fresh coordinator: restored transactions + statistics
    (pending_prepare, pending_commit, pending_abort, lock_releases_recovered) *)
-Definition recover_entries (first_wins : bool) (now : N) (es : list tentry) : coord * list N :=
-  let s := fold_left scan_step es sc0 in
+Definition recover_entries (live_rule first_wins : bool) (now : N) (es : list tentry) : coord * list N :=
+  let s := fold_left (scan_step live_rule) es sc0 in
   let restored :=
     flat_map (fun p =>
       let '(tx, (ps, vs, ph)) := p in
@@ -235,6 +245,7 @@ Variable ser : tentry -> list byte.
 Variable deser : list byte -> option tentry.
 Variable crc : list byte -> N.
 Variable tail_repair : bool.
+Variable live_rule : bool.
 Variable first_wins : bool.
 
 Record dcoord := DC { co : coord; file : list byte; clock : N }.
@@ -250,6 +261,6 @@ Definition restart (now : N) (f : list byte) : option (dcoord * list N) :=
   let f' := if tail_repair then repair f else f in
   match replay_file deser crc true f' with
   | ErrChecksum _ => None
-  | Ok es => let '(c, stats) := recover_entries first_wins now es in Some (DC c f' now, stats)
+  | Ok es => let '(c, stats) := recover_entries live_rule first_wins now es in Some (DC c f' now, stats)
   end.
 End Durable.
